@@ -296,6 +296,23 @@ func generateMode(key echx.KeyPair, b base, thorough, retry bool) (out []fault) 
 			rep2 := append(slices.Clone(refs), refs[i])
 			add("refs-repeated-at-end", fmt.Sprint(i), []string{IP}, withMarker(tlsref.OuterExtensions(rep2...)).Build().Outer.Record())
 		}
+		// a repeated reference whose extension the OUTER hello carries twice as well (sealed over exactly that outer hello): the
+		// second reference finds a second copy, yet "referenced more than once" is a fault of the list whatever the outer hello holds
+		for i := range refs {
+			s9 := withMarker(tlsref.OuterExtensions(slices.Insert(slices.Clone(refs), i, refs[i])...))
+			o := s9.Outer.Clone()
+			for j, e := range o.Exts {
+				if e.Type == refs[i] {
+					o.Exts = slices.Insert(o.Exts, j+1, e)
+					if j < s9.EchIdx {
+						s9.EchIdx++
+					}
+					break
+				}
+			}
+			s9.Outer = o
+			add("refs-repeated-and-outer-carries-it-twice", fmt.Sprint(i), []string{IP, DE}, s9.Build().Outer.Record())
+		}
 		for i := range refs {
 			miss := slices.Clone(refs)
 			miss[i] = 0x7777
